@@ -93,7 +93,7 @@ class Runner:
                     # a stripe skipped because of a read error is not written: the j-th pwrite is the j-th of the others
                     lst = [p for p in ref.written.get(who, []) if p not in rd_hit]
                     targets.append(('wr', lst[j - 1] if j <= len(lst) else None, who, errno))
-            opts = ['--test-io-cache', str(case['cache'])]
+            opts = [] if case.get('default_cache') else ['--test-io-cache', str(case['cache'])]   # default: 16 MiB / block size, capped at 128
             if case.get('limit') is not None:
                 opts += ['-L', str(case['limit'])]
             log = os.path.join(a.root, 'fault.log')
@@ -328,6 +328,130 @@ class Runner:
         return out
 
     # ---------------------------------------------------------------------------------------------- scrub
+    # ---------------------------------------------------------------------------------------------- other fault families
+    def misc_case(self, case):
+        """Faults that are not a failing read/write of a block but belong to 'the OS reports an error while a block is read or
+        written': failing open (EIO / EACCES / ENOENT), non-EIO read errors, a file changed between scan and sync (--test-run),
+        a copied file whose data differs (pre-hash), a silent error repaired on the fly with and without a failing PARITY read,
+        write faults with an autosave, failing resize of the parity file.  One oracle for all ("no false protection"):
+          - failing status and a diagnostic (unless case['may_succeed'], e.g. a resize fallback);
+          - the content decodes; every stripe recorded synced AND not bad has valid parity (independent checker);
+          - the stripes named by the case are not recorded synced-and-healthy;
+          - fix -e, sync, scrub -p bad end with everything synced, not bad, parity valid, data files as the harness wrote them.
+        case = dict(name, cache, opts=[...], fail=[spec with {root}], pre=callable name or None, hit=[stripes] or None, may_succeed)"""
+        scn, chk = self.scn, self.chk
+        if len(chk.violations) > 8:
+            return
+        a = scn.build()
+        rep = {k: v for k, v in case.items()}
+        rep.update(scn.describe())
+        try:
+            pre = case.get('pre')
+            extra = []
+            if pre:
+                extra = getattr(self, 'pre_' + pre)(a, case) or []
+            log = os.path.join(a.root, 'fault.log')
+            specs = [f.replace('{root}', a.root) for f in case.get('fail', [])]
+            env = {'VSHIM_LOG': log}
+            if specs:
+                env['VSHIM_FAIL'] = ','.join(specs)
+            data_before = a.snapshot_data()
+            r = a.run('sync', '--test-io-cache', str(case['cache']), *(case.get('opts', []) + extra), shim_env=env)
+            self.stats['runs'] += 1
+            txt = open(log, errors='replace').read() if os.path.exists(log) else ''
+            if specs and 'INJECTED-ERROR' not in txt and not any(sp.startswith('open:') for sp in specs):
+                self.stats['not_injected'] += 1
+                return
+            self.stats['read_faults'] += 1
+            rep.update({'rc': r.rc, 'summary': r.summary()})
+            if not case.get('data_changes') and data_equal(data_before, a.snapshot_data()):
+                chk.violation('misc_data', '%s: sync modified data files' % case['name'], rep)
+            diag = bool(r.tag('error') or r.tag('parity_error') or 'rror' in r.err or 'DANGER' in r.err or 'WARNING' in r.err)
+            if not case.get('may_succeed') and (r.rc == 0 or not diag):
+                chk.violation('misc_exit', '%s: exit status %d / diagnostic %s (io_cache %d)' % (case['name'], r.rc, diag, case['cache']), rep)
+            try:
+                st = a.content()
+            except FileNotFoundError:
+                st = None
+            except Exception as e:
+                chk.violation('misc_content', '%s: the content file does not decode afterwards: %s' % (case['name'], e), rep)
+                return
+            ok = True
+            if st is not None:
+                view = stripe_view(a, st)
+                perr, _ = a.check_parity(st)
+                stale = sorted({int(e.split()[1]) for e in perr if e.startswith('stripe')})
+                false_prot = [p for p in stale if view.get(p, {}).get('healthy')]
+                if false_prot or [e for e in perr if not e.startswith('stripe')]:
+                    ok = False
+                    chk.violation('misc_false_protection', '%s: stripes %s are recorded synced and not bad but their parity is not valid (%s)' % (case['name'], false_prot, perr[:2]), rep)
+                for p in (case.get('hit') or []):
+                    if view.get(p, {}).get('healthy') and r.rc != 0 and not case.get('hit_may_complete'):
+                        ok = False
+                        chk.violation('misc_hit', '%s: stripe %d is recorded synced and healthy' % (case['name'], p), rep)
+            # repair
+            if case.get('restore'):
+                getattr(self, 'restore_' + case['restore'])(a, case)
+            # the repair path of the property: `fix -e` or the next `sync`; a stripe left unsynced by a fatal stop is first seen (and marked)
+            # by the next sync, then repaired by fix -e: up to two rounds
+            for rnd in range(2):
+                rf = a.run('fix', '-e')
+                rs = a.run('sync', *case.get('resync_opts', []))
+                rb = a.run('scrub', '-p', 'bad')
+                st3 = a.content()
+                if rs.rc == 0 and not all_synced(a, st3):
+                    break
+            perr3, _ = a.check_parity(st3)
+            left = all_synced(a, st3)
+            dd = data_equal(data_before, a.snapshot_data()) if not case.get('data_changes') else []
+            if case.get('expect_restored'):
+                d_, s_ = case['expect_restored']
+                if not os.path.isfile(a.path(d_, s_)):
+                    dd = dd + ['%s:%s is gone (%s)' % (d_, s_, sorted(os.listdir(os.path.join(a.root, d_))))]
+                elif open(a.path(d_, s_), 'rb').read() != a.store[(d_, s_)][0][0]:
+                    dd = dd + ['%s:%s still damaged' % (d_, s_)]
+            if (rs.rc != 0 or perr3 or left or dd) and case.get('repair_measured'):
+                # measured, not judged (reported to the lead as a candidate): see the note where the case is generated
+                self.stats.setdefault('measured', []).append({'case': case['name'], 'fix_rc': rf.rc, 'sync_rc': rs.rc, 'left': left, 'data': dd[:1]})
+            elif rs.rc != 0 or perr3 or left or dd:
+                ok = False
+                chk.violation('misc_repair', '%s: after fix -e (rc %d), sync (rc %d), scrub -p bad (rc %d): unsynced/bad %s, parity errors %s, data %s' % (
+                    case['name'], rf.rc, rs.rc, rb.rc, left, perr3[:2], dd[:2]), rep)
+            if ok:
+                self.stats['satisfied'] += 1
+        finally:
+            drop(a)
+
+    # preparations: return extra options
+    def pre_touch_during(self, a, case):
+        """a data file gets a new time stamp between the scan and the sync loop (--test-run runs after the scan)"""
+        d, sub = case['file']
+        return ['--test-run', 'touch -d 2001-02-03 %s' % a.path(d, sub)]
+
+    def restore_touch(self, a, case):
+        a.note_version(*case['file'])        # the harness itself changed the time stamp: a version the oracles must know
+
+    def pre_silent(self, a, case):
+        """one block of a synced file is damaged without changing size or time: a silent error in a stripe the sync has to process"""
+        d, sub, blk = case['silent']
+        p = a.path(d, sub)
+        st = os.stat(p)
+        b = bytearray(open(p, 'rb').read())
+        b[blk * BS + 3:blk * BS + 13] = b'\x5a' * 10
+        open(p, 'wb').write(bytes(b))
+        os.utime(p, ns=(st.st_mtime_ns, st.st_mtime_ns))
+        return []
+
+    def pre_copy_mismatch(self, a, case):
+        """a new file with the name, size and time of a synced file of another disk (taken for a copy: REP blocks with the inherited
+        hashes) but other bytes"""
+        (d0, sub0), d1 = case['copy_of'], case['to']
+        src = a.path(d0, sub0)
+        st = os.stat(src)
+        data = det_bytes('c08/copy-mismatch', st.st_size)
+        a.write(d1, 'sub2/' + sub0, data, mtime_ns=st.st_mtime_ns)
+        return []
+
     def prehash_case(self, case):
         """`sync -h`: the pre-hash phase reads every block of the new files before the sync phase; the j-th pread of a new file is
         made to fail with EIO there.  Expected: failing status and diagnostic, the sync phase is skipped, nothing is recorded
@@ -497,14 +621,26 @@ class Runner:
             if t[0] == 'data':
                 spec = 'pread:%s:%d:%d' % (os.path.join(a.root, t[1], t[2]), t[3], case['errno'])
                 lst = file_stripes(a, st1, t[1], t[2])
+            elif t[0] == 'open':
+                # the open of a data file fails: EIO is fatal for scrub (TASK_STATE_IOERROR), anything else is a file error
+                spec = 'open:%s:1:%d' % (os.path.join(a.root, t[1], t[2]), case['errno'])
+                lst = file_stripes(a, st1, t[1], t[2])
             else:
                 spec = 'pread:%s:%d:%d' % (parity_sub(t[1]), t[2], case['errno'])
                 lst = stripes
-            j = t[-1]
+            j = t[-1] if t[0] != 'open' else 1
             pos = lst[j - 1] if j <= len(lst) else None
+            if case.get('touched') and t[0] == 'data':
+                # the file has a new time stamp since the sync (an unsynced file for scrub: is_timestamp_different)
+                pth = a.path(t[1], t[2])
+                os.utime(pth, ns=(T0 + 777 * 10**9, T0 + 777 * 10**9))
+                a.note_version(t[1], t[2])
             log = os.path.join(a.root, 'fault.log')
-            r = a.run('scrub', '-p', 'full', '--test-io-cache', str(case['cache']), shim_env={'VSHIM_FAIL': spec, 'VSHIM_LOG': log})
+            lopts = ['-L', str(case['limit'])] if case.get('limit') else []
+            r = a.run('scrub', '-p', 'full', '--test-io-cache', str(case['cache']), *lopts, shim_env={'VSHIM_FAIL': spec, 'VSHIM_LOG': log})
             injected = open(log, errors='replace').read().count('INJECTED-ERROR') if os.path.exists(log) else 0
+            if t[0] == 'open':
+                injected = 1 if r.rc != 0 else 0
             self.stats['runs'] += 1
             if injected == 0 or pos is None:
                 self.stats['not_injected'] += 1
@@ -517,21 +653,22 @@ class Runner:
             diag = bool(r.tag('error:') or r.tag('parity_error:'))
             if r.rc == 0 or not diag:
                 chk.violation('scrub_exit', 'scrub: read error (errno %d) at stripe %d but exit status %d / diagnostic %s' % (case['errno'], pos, r.rc, diag), rep)
-            if case['errno'] == EIO and not (v['info'] and v['info']['bad']):
+            soft_eio = case['errno'] == EIO and t[0] != 'open' and not case.get('limit')
+            if soft_eio and not (v['info'] and v['info']['bad']):
                 chk.violation('scrub_notbad', 'scrub: EIO at stripe %d (%s) but the stripe is not marked bad' % (pos, t), rep)
-            if case['errno'] == EIO and r.summary().get('error_io') != '1':
+            if soft_eio and r.summary().get('error_io') != '1':
                 chk.violation('scrub_count', 'scrub: one EIO injected but summary:error_io is %s' % r.summary().get('error_io'), rep)
             # the stripe must not have been refreshed as scrubbed now
             i1 = st1['info'][pos]
             if v['info'] and i1 and v['info']['time'] != i1['time']:
                 chk.violation('scrub_refreshed', 'scrub: read error at stripe %d but its scrub time was refreshed' % pos, rep)
             # the other stripes: processed (time refreshed or kept, not bad)
-            for p in stripes:
+            for p in (stripes if (soft_eio or (case['errno'] != EIO and t[0] != 'open')) else []):
                 if p != pos and (view[p]['info'] is None or view[p]['info']['bad'] or not view[p]['allblk']):
                     chk.violation('scrub_others', 'scrub with a fault at stripe %d: stripe %d is left %s' % (pos, p, view[p]), rep)
                     break
             # ---- the scrub-stripe model on the same outcome
-            if self.model and case['errno'] == EIO:
+            if self.model and soft_eio and not case.get('touched'):
                 order = {m['name']: m['pos'] for m in st1['maps']}
                 stripes1, _ = a.stripes(st1)
                 dt = []
@@ -555,7 +692,7 @@ class Runner:
                     else:
                         self.stats['model_compared'] += 1
             rstat = a.run('status')
-            if case['errno'] == EIO and int(rstat.summary().get('has_bad', 0) or 0) < 1:
+            if soft_eio and int(rstat.summary().get('has_bad', 0) or 0) < 1:
                 chk.violation('scrub_status', 'scrub: EIO at stripe %d but status shows has_bad:%s' % (pos, rstat.summary().get('has_bad')), rep)
             rf = a.run('fix', '-e')
             rb = a.run('scrub', '-p', 'bad')
@@ -583,6 +720,10 @@ def sync_cases(ref, scn, caches, quick, rng):
             for j in range(1, n + 1):
                 for errno in (EIO, ENOSPC, SHORT):
                     cases.append({'cache': cache, 'faults': [('wr', lev, j, errno)]})
+    # the default cache depth (no --test-io-cache: 16 MiB / block size capped at IO_MAX = 128)
+    for (d, sub) in files[:1]:
+        cases.append({'cache': 128, 'default_cache': True, 'faults': [('rd', (d, sub), 2, EIO)]})
+        cases.append({'cache': 128, 'default_cache': True, 'faults': [('wr', 0, 2, EIO)]})
     # error limit and several faults per run
     if files:
         (d, sub) = files[0]
@@ -593,6 +734,10 @@ def sync_cases(ref, scn, caches, quick, rng):
                 cases.append({'cache': cache, 'limit': 1, 'faults': [('rd', (d, sub), 2, EIO)]})
                 cases.append({'cache': cache, 'limit': 3, 'faults': [('rd', (d, sub), 1, EIO), ('rd', (d, sub), 3, EIO)]})
                 cases.append({'cache': cache, 'faults': [('rd', (d, sub), 2, EIO), ('rd', files[-1], 2, EIO), ('rd', (d, sub), n, EIO)]})
+                # the error limit reached through parity WRITE errors (sync.c: DANGER! Unexpected input/output write error)
+                cases.append({'cache': cache, 'limit': 1, 'faults': [('wr', 0, 2, EIO)]})
+                cases.append({'cache': cache, 'limit': 2, 'faults': [('wr', 0, 1, EIO), ('wr', 0, 3, EIO)]})
+                cases.append({'cache': cache, 'limit': 2, 'faults': [('rd', (d, sub), 1, EIO), ('wr', 0, 3, EIO)]})
                 # a non-EIO read error is fatal for sync (TASK_STATE_ERROR): still a failing status, nothing recorded synced
                 cases.append({'cache': cache, 'faults': [('rd', (d, sub), 2, ENOSPC)]})
     return cases
@@ -613,6 +758,19 @@ def scrub_cases(ref, scn, caches, quick):
             js = range(1, n + 1) if not quick else sorted({1, (n + 1) // 2, n} - {0})
             for j in js:
                 cases.append({'cache': cache, 'target': ('par', lev, j), 'errno': EIO})
+    # coverage round: non-EIO read errors (ERROR_CONTINUE: counted, the stripe is neither refreshed nor marked), failing open,
+    # the error limit reached on a parity read, a file with a new time stamp since the sync
+    for cache in caches[:1] + caches[-1:]:
+        fl = sorted(ref.files)
+        for (d, sub) in fl[:2]:
+            cases.append({'cache': cache, 'target': ('data', d, sub, 2), 'errno': ENOSPC})
+            cases.append({'cache': cache, 'target': ('open', d, sub), 'errno': EIO})
+            cases.append({'cache': cache, 'target': ('open', d, sub), 'errno': 13})
+            cases.append({'cache': cache, 'target': ('data', d, sub, 2), 'errno': EIO, 'touched': True})
+            cases.append({'cache': cache, 'target': ('data', d, sub, 2), 'errno': EIO, 'limit': 1})
+        for lev in range(scn.np):
+            cases.append({'cache': cache, 'target': ('par', lev, 2), 'errno': ENOSPC})
+            cases.append({'cache': cache, 'target': ('par', lev, 2), 'errno': EIO, 'limit': 1})
     return cases
 
 
@@ -698,6 +856,42 @@ def main(tier, replay=None):
                     allf.append({'cache': cache, 'file': (d, sub), 'limit': 3})
             pmap(R.scrub_allfail_case, allf)
             pmap(R.scrub_combo_case, combo)
+        # ---- other fault families (coverage round): judged by the generic "no false protection" oracle
+        if gi == 0 or not quick:
+            mc = []
+            fl = sorted(R.ref.files)
+            newf = [f for f in fl if f[1] in ('f', 'n')]
+            cs = [caches[0], caches[-1]] if quick else caches
+            for cache in cs:
+                for (d, sub) in [f for f in fl if R.ref.files[f]][:2 if quick else None]:       # files the sync has to read
+                    tgt = '{root}/%s/%s' % (d, sub)
+                    for en, eno in (('EIO', 5), ('EACCES', 13), ('ENOENT', 2)):
+                        mc.append({'name': 'open of %s:%s fails with %s' % (d, sub, en), 'cache': cache, 'fail': ['open:%s:1:%d' % (tgt, eno)], 'hit': R.ref.files[(d, sub)][:1]})
+                        if (d, sub) in newf:
+                            mc.append({'name': 'sync -h: open of %s:%s fails with %s' % (d, sub, en), 'cache': cache, 'opts': ['-h'], 'fail': ['open:%s:1:%d' % (tgt, eno)]})
+                    if (d, sub) in newf:
+                        mc.append({'name': 'sync -h: pread 2 of %s:%s fails with ENOSPC (non-EIO)' % (d, sub), 'cache': cache, 'opts': ['-h'], 'fail': ['pread:%s:2:28' % tgt]})
+                    mc.append({'name': 'time stamp of %s:%s changes between scan and sync' % (d, sub), 'cache': cache, 'pre': 'touch_during', 'file': (d, sub),
+                               'hit': R.ref.files[(d, sub)][:1], 'data_changes': True, 'restore': 'touch', 'resync_opts': ['--force-empty']})
+                    if (d, sub) in newf:
+                        mc.append({'name': 'sync -h: time stamp of %s:%s changes between scan and hashing' % (d, sub), 'cache': cache, 'opts': ['-h'], 'pre': 'touch_during',
+                                   'file': (d, sub), 'data_changes': True, 'restore': 'touch', 'resync_opts': ['--force-empty']})
+                # failing resize of the parity file
+                for spec, nm, may in (('fallocate:par0_:1:28', 'fallocate of the parity fails with ENOSPC', True), ('fallocate:par0_:1:95', 'fallocate of the parity is not supported', True),
+                                      ('ftruncate:par0_:1:5', 'ftruncate of the parity fails with EIO', True), ('fallocate:par0_:1:5', 'fallocate of the parity fails with EIO', True)):
+                    mc.append({'name': nm, 'cache': cache, 'fail': [spec], 'may_succeed': may})
+                # write faults with an autosave: the reports are collected by the autosave's flush
+                for lev in range(scn.np):
+                    wr = R.ref.written.get(lev, [])
+                    for j in (sorted({1, len(wr) // 2, len(wr)} - {0}) if quick else range(1, len(wr) + 1)):
+                        for eno in ('5', '28', 'short=512'):
+                            for at in sorted({wr[0], wr[len(wr) // 2], wr[-1]}):
+                                if at == 0:
+                                    continue
+                                mc.append({'name': 'parity write %d of level %d fails (%s), autosave after stripe %d' % (j, lev, eno, at), 'cache': cache,
+                                           'opts': ['--test-force-autosave-at', str(at)], 'fail': ['pwrite:%s:%d:%s' % (parity_sub(lev), j, eno)], 'hit': [wr[j - 1]]})
+            pmap(R.misc_case, mc)
+            sc = sc + mc
         # ---- read faults during the pre-hash phase of `sync -h`: every pread index of every file with blocks to sync
         ph = []
         for cache in ([caches[0], caches[-1]] if quick else caches):
@@ -716,6 +910,33 @@ def main(tier, replay=None):
             # replay of the Coq witnesses, one-shot (no preliminary interrupted sync), judged by the same oracle
             for wname, case in WITNESSES:
                 R.sync_case(dict(case, witness=wname))
+        if gi == 0:
+            # a synced array with additions pending: silent error repaired on the fly (sync reads the PARITY), copies that differ
+            try:
+                scn2 = Scn(binary, shim, 'adds', 2, 1)
+                R2 = Runner(chk, scn2, model)
+                sil = R2.ref.files.get(('d2', 'n'), [])
+                m2 = []
+                for cache in [caches[0], caches[-1]]:
+                    for blk in (sil[:1] + sil[-1:]):
+                        base = {'cache': cache, 'pre': 'silent', 'silent': ('d1', 'a', blk), 'hit': [blk], 'data_changes': True, 'expect_restored': ('d1', 'a')}
+                        m2.append(dict(base, name='silent error in d1:a block %d, repaired on the fly by sync' % blk))
+                        m2.append(dict(base, name='silent error in d1:a block %d, the parity read of the on-the-fly repair fails with EIO' % blk, fail=['pread:par0_:1:5']))
+                        # a FATAL parity read error stops the run with the stripe unsynced (CHG, past hash ZERO on disk).  The next sync
+                        # loads with clear_past_hash (ZERO -> INVALID), can no longer repair on the fly (two unknown blocks, one parity),
+                        # marks the stripe bad, and `fix -e` then declares d1:a unrecoverable although parity + zeros would rebuild it.
+                        # Two independent faults on a single-parity array after an interrupted sync: measured, reported, not judged
+                        m2.append(dict(base, name='silent error in d1:a block %d, the parity read of the on-the-fly repair fails with ENOSPC' % blk, fail=['pread:par0_:1:28'],
+                                       repair_measured=True))
+                    for o in ([], ['-h']):
+                        m2.append({'name': 'sync %s: d2:sub2/a has the name, size and time of d1:a but other bytes (false copy)' % ' '.join(o), 'cache': cache, 'opts': o,
+                                   'pre': 'copy_mismatch', 'copy_of': ('d1', 'a'), 'to': 'd2', 'resync_opts': ['--force-nocopy'], 'data_changes': True})
+                pmap(R2.misc_case, m2)
+                for k in total:
+                    total[k] += R2.stats[k]
+                chk.cov['silent_error_plus_fatal_parity_read (measured, not judged)'] = R2.stats.get('measured', [])[:4]
+            except Exception as e:
+                chk.violation('setup', 'adds scenario for the on-the-fly repair cases cannot be prepared: %s' % e, {}, no_input=True)
         for k in total:
             total[k] += R.stats[k]
         for k in known:
@@ -734,7 +955,9 @@ def main(tier, replay=None):
     if ob['failed'] and not chk.violations:
         chk.violation('obligation', 'proof obligation of C08 no longer checks: %s' % ob['failed'][0],
                       {'theorem_file': 'coq/Props/Properties_C08.v', 'failed': ob['failed'], 'log_tail': ob['log'][-1500:]}, no_input=True)
-    chk.assumptions += ['the shim makes the call fail without side effect (a failed pwrite writes nothing); real devices may fail after a partial transfer',
+    chk.assumptions += ['exercised by the oracle only (outside the Coq model): failing open (EIO/EACCES/ENOENT) in sync, sync -h and scrub; non-EIO read errors of the pre-hash phase and of scrub; a file changed between scan and sync (--test-run); a false copy (REP blocks) with and without -h; a silent error repaired on the fly by sync with a failing parity read; parity write faults combined with an autosave (the flush inside the autosave); failing fallocate/ftruncate of the parity; the default cache depth',
+                        'never reached, by choice: close() errors, fsync errors, rehash in progress (prevhash), the size-based autosave (needs GBs), Windows / direct-io branches, internal-inconsistency aborts',
+                        'the shim makes the call fail without side effect (a failed pwrite writes nothing); real devices may fail after a partial transfer',
                         'writer scheduling is the model parameter `lag` (1 <= lag <= io_cache-1): the check accepts any admissible lag; which one occurs is timing dependent',
                         'parity reads of sync (on-the-fly repair of silent errors) are not fault-injected; rehash/prehash not modelled']
     return chk.finish()
